@@ -1183,3 +1183,65 @@ def rule_unwind_all(cx, tier):
                           "raised, a generator that timed out can be resumed)", fn.file, line_of(fn, wb),
                           [f"bb{b} {fn.file}:{line_of(fn, b)}" for b in p][-12:]))
     return r
+
+
+# ---------------------------------------------------------------------------------------------
+# R-ERR-KIND (C04, C08): an error is passed on as it is, not as the text of itself
+
+def rule_err_kind(cx, tier):
+    r = RuleResult("R-ERR-KIND", "a runtime error that is passed on keeps its kind: no koto_runtime::Error is rendered with "
+                                 "to_string() and wrapped into a new Error -- the copy is an ordinary string error, so a "
+                                 "timeout that travels through it becomes catchable and a thrown value reaches `catch` as "
+                                 "text")
+    F = cx.F
+    n = 0
+    for fn in F.fns.values():
+        if fn.crate.uname != "koto_runtime" or fn.derived:
+            continue
+        du = None
+        for c in fn.calls():
+            if not c.is_("ToString::to_string") or not c.args:
+                continue
+            aty = fn.crate.tstr(c.arg_ty(0))
+            if not (aty.endswith("error::Error") or aty.endswith("koto_runtime::Error") or "error::Error" in aty.split("<")[0]):
+                continue
+            if "ErrorKind" in aty:
+                continue
+            n += 1
+            r.instances += 1
+            r.nontrivial += 1
+            du = du or cx.du(fn)
+            text = c.dest[0]
+            # where does the text go
+            rewrapped = None
+            aliases = {text}
+            changed = True
+            while changed:
+                changed = False
+                for b in fn.blocks:
+                    if b.cleanup:
+                        continue
+                    for st in b.stmts:
+                        if st[0] == "a" and st[2][0] in ("use", "cast") and not st[1][1]:
+                            pl = op_place(st[2][1] if st[2][0] == "use" else st[2][2])
+                            if pl is not None and pl[0] in aliases and st[1][0] not in aliases:
+                                aliases.add(st[1][0])
+                                changed = True
+                for c2 in fn.calls():
+                    if any(op_base(a) in aliases for a in c2.args) and not c2.dest[1]:
+                        dty = fn.crate.tstr(fn.local_ty(c2.dest[0]))
+                        if c2.is_("From::from", "Into::into") and (dty.endswith("error::Error") or dty.endswith("::Error")) \
+                                and "KString" not in dty:
+                            rewrapped = c2
+                        elif c2.is_("From::from", "Into::into", "Clone::clone") and c2.dest[0] not in aliases:
+                            aliases.add(c2.dest[0])
+                            changed = True
+            r.sample({"fn": cx.label(fn), "line": c.line, "text_becomes_a_new_error": rewrapped is not None})
+            if rewrapped is not None:
+                r.add(Finding("R-ERR-KIND", cx.label(fn), "to_string->Error",
+                              "an Error is rendered with to_string() and the text is wrapped into a new Error: the original "
+                              "kind is lost (a Timeout becomes a catchable string error, a thrown value becomes its "
+                              "rendering including the trace)", fn.file, c.line))
+    r.analysed = {"errors_rendered_to_text": n}
+    r.floor("to_string() calls on koto_runtime::Error", n, 1)
+    return r
